@@ -22,6 +22,13 @@ class VetoTree(TreeError):
     """variant: a veto that is a TreeError subclass"""
 
 
+class VetoAttr(AttributeError):
+    """variant: a veto that is an AttributeError subclass (the exception hasattr()/getattr(default) swallow)"""
+
+
+VETOES = {None: Veto, "tree": VetoTree, "attr": VetoAttr}
+
+
 class UnwindingError(BaseException):
     pass
 
@@ -194,7 +201,7 @@ class NotANode(object):
 def classify(exc):
     if exc is None:
         return "ok"
-    if isinstance(exc, (Veto, VetoTree)):
+    if isinstance(exc, (Veto, VetoTree, VetoAttr)):
         return "Veto"
     if isinstance(exc, LoopError):
         return "LoopError"
@@ -422,7 +429,7 @@ def c03_body(cfg):
     """C03: a call that raises (invalid argument or pre-hook veto) leaves every parent and every ordered
     children tuple as before.  Listed findings F1/F2/F3/F9 are recognised by exact modelled outcome."""
     clsname, family, n, pv, parent, children, _, op = _setup(cfg)
-    exc_cls = VetoTree if cfg.get("veto") == "tree" else Veto
+    exc_cls = VETOES[cfg.get("veto")]
     if F.refusal(parent, children, op, family) == "UNSPECIFIED":
         return True
     known = None
@@ -454,7 +461,7 @@ def c01_body(cfg):
     """C01: after ANY call (success, refusal, veto at any hook incl. post hooks, persistent vetoes) the two
     views agree, chains end, no AssertionError, only the documented exception classes escape."""
     clsname, family, n, pv, parent, children, _, op = _setup(cfg)
-    exc_cls = VetoTree if cfg.get("veto") == "tree" else Veto
+    exc_cls = VETOES[cfg.get("veto")]
     if F.refusal(parent, children, op, family) == "UNSPECIFIED":
         return True
     if clsname == "mixed" and any(p >= 0 and p % 2 != i % 2 for i, p in enumerate(pv)):
@@ -504,6 +511,11 @@ def c16_body(cfg):
             if post != (model.parent, model.children):
                 return {"why": "post-state differs from protocol", "pv": pv, "op": op, "touched": touched, "faults": answers, "got": list(post),
                         "exp": [model.parent, model.children]}
+            if not touched and op[0] == "children" and op[2] != NONITER and not any(answers):
+                # xs given as a one-shot iterator: the same hooks with the same arguments
+                n2, e2, log2, _ = run_real(clsname, pv, False, op, FaultPlan({"faults": "none"}), as_iter=iter)
+                if classify(e2) != got or log2 != model.log:
+                    return {"why": "hook log differs when the children are given as an iterator", "pv": pv, "op": op, "got": log2, "exp": model.log}
     return True
 
 
